@@ -557,7 +557,14 @@ func checkCellWriters(c *Ctx, r *Report, rule string) {
 			}
 			root := rootOf(f)
 			k := "database write in " + shortFn(root)
-			r.check(shortFn(root) == "pkg/abmf.handleCCR", rule, k, posOf(c, ins), "the CCR handler", "the charging data collection is written outside the credit-control handler")
+			isHandler := shortFn(root) == "pkg/abmf.handleCCR"
+			for _, h := range returnedFuncs(c.fn("pkg/abmf", "handleCCR")) {
+				if rootOf(h) == root {
+					isHandler = true
+					k = "database write in the CCR handler " + shortFn(root)
+				}
+			}
+			r.check(isHandler, rule, k, posOf(c, ins), "the CCR handler", "the charging data collection is written outside the credit-control handler")
 		})
 	}
 }
@@ -823,6 +830,23 @@ func c06Bounded(fe *formEval, v ssa.Value, R poly, depth int, nonNeg bool) bool 
 	case *ssa.Const:
 		k, ok := constInt(x)
 		return ok && k == 0
+	case *ssa.Phi:
+		// a variable assigned in branches: every incoming value qualifies; a bare
+		// conversion of the reservation qualifies on an edge where it is known positive
+		for i, e := range x.Edges {
+			pred := x.Block().Preds[i]
+			if c06Bounded(fe, e, R, depth+1, nonNeg) {
+				continue
+			}
+			rel := relOnEdge(fe, R, poly{}, pred, x.Block())
+			if rel[">"] || rel[">="] {
+				if polyEqual(fe.eval(stripConv(e)), R) {
+					continue
+				}
+			}
+			return false
+		}
+		return len(x.Edges) > 0
 	case *ssa.Call:
 		if len(x.Call.Args) != 2 {
 			return false
